@@ -108,8 +108,11 @@ static void drv_step(struct cmd *c)
 		setup(tr);
 		delete arr;
 		arr = new linepart::array;
-		if (mode && !strcmp(mode, "set")) {
+		if (mode && !strncmp(mode, "set", 3)) {
 			sok = arr->set((long) dlen);
+			if (sok && !strcmp(mode, "set2")) {
+				sok = arr->set(-1);     /* re-chunk from the existing parts */
+			}
 		}
 		ok = arr->apply(tr, 0, span<const double>(data, (long) dlen));
 		drv_begin(c);
